@@ -19,6 +19,7 @@ aborting chunk; close() finishes every inspector.
 """
 import hashlib
 import itertools
+import logging
 import struct
 import time
 
@@ -81,14 +82,36 @@ def sources(ctx):
 # sources for the wrapper
 
 class FileSrc:
-    def __init__(self, data):
+    def __init__(self, data, plan=None):
         self.data, self.pos, self.reads = data, 0, []
+        self.plan = plan            # lengths the source is willing to hand out, call by call
 
     def read(self, n):
+        if self.plan is not None:
+            i = len(self.reads)
+            n = min(n, self.plan[i]) if i < len(self.plan) else 0
         c = self.data[self.pos:self.pos + n]
         self.reads.append((self.pos, n))
         self.pos += len(c)
         return c
+
+
+class _FmtHandler(logging.Handler):
+    """A handler that does what real ones do: format the record."""
+    def emit(self, record):
+        record.getMessage()
+
+
+def set_debug_logging(on):
+    lg = logging.getLogger('oslo_utils.imageutils.format_inspector')
+    if on:
+        lg.disabled = False
+        lg.setLevel(logging.DEBUG)
+        if not any(isinstance(h, _FmtHandler) for h in lg.handlers):
+            lg.addHandler(_FmtHandler())
+    else:
+        lg.disabled = True
+        lg.setLevel(logging.NOTSET)
 
 
 class IterSrc:
@@ -173,8 +196,15 @@ def execute(data, chunks, kind, expected, allowed, reverse, faults):
     from oslo_utils.imageutils import format_inspector as fi
     from vlib.mc import stream as S
     # file-like readers ask for the planned sizes and then once more at EOF
+    debug = kind.endswith('+debug')
+    kind = kind.split('+')[0]
     if kind == 'file':
         src = FileSrc(data)
+        feed = chunks + [b'']
+    elif kind == 'file-short':
+        # the reader always asks for 1 MiB; the source answers with the planned piece
+        # (a short read - which is not the end of the stream - or nothing at all)
+        src = FileSrc(data, plan=[len(c) for c in chunks] + [0])
         feed = chunks + [b'']
     else:
         src = IterSrc(list(chunks))
@@ -211,8 +241,14 @@ def execute(data, chunks, kind, expected, allowed, reverse, faults):
     delivered = []
     raised = None
     k = 0
+    if debug:
+        set_debug_logging(True)
     try:
-        if kind == 'file':
+        if kind == 'file-short':
+            for n, c in enumerate(feed):
+                k += 1
+                delivered.append(w.read(1 << 20))
+        elif kind == 'file':
             for n, c in enumerate(feed):
                 k += 1
                 last = n == len(feed) - 1
@@ -229,6 +265,9 @@ def execute(data, chunks, kind, expected, allowed, reverse, faults):
                     break
     except Exception as e:
         raised = (k, e)
+    finally:
+        if debug:
+            set_debug_logging(False)
     finished_by_iter = getattr(w, '_finished', None)
     closed_ok = None
     if raised is None:
@@ -341,26 +380,33 @@ def _job(job):
         for e in range(len(base_chunks) + 1):
             variants.append((e, 'iter'))
             variants.append((e, 'file'))
+            variants.append((e, 'file-short'))
+        variants.append((None, 'file-short'))
+        # DEBUG logging switched on for the inspector module (a configuration the
+        # statement does not mention): every single fault, no expected format
+        variants.append((None, 'file+debug'))
+        variants.append((None, 'iter+debug'))
         for empty_at, kind in variants:
             chunks = plan_chunks(data, cuts, empty_at)
-            light = empty_at is not None
-            feed = chunks + [b''] if kind == 'file' else chunks
+            light = empty_at is not None or kind == 'file-short'
+            dbg = kind.endswith('+debug')
+            feed = chunks + [b''] if kind.startswith('file') else chunks
             sa = standalone(feed)
             base_canon, base_obs = _fault_free_canon(data, chunks, kind, None)
             ncalls = len(feed)
             fault_list = [None]
-            for n in (ALL if not light else ['qcow2', 'vmdk']):
+            for n in (ALL if not light else ['qcow2', 'vmdk', 'raw']):
                 for j in range(1, ncalls + 1):
                     for cname in (list(EXC) if j == 1 or thorough else ['RuntimeError']):
                         fault_list.append(((n, j, cname),))
             # pairs of faults in different inspectors (same or adjacent calls)
-            if (pi % 8 == 0 or thorough) and not light:
+            if (pi % 8 == 0 or thorough) and not light and not dbg:
                 for a, b in itertools.combinations(ALL, 2):
                     for ja, jb in ((1, 1), (1, 2), (2, 1), (2, 2)):
                         if ja <= ncalls and jb <= ncalls:
                             fault_list.append(((a, ja, 'RuntimeError'), (b, jb, 'struct.error')))
-            for expected in (expecteds if not light else [None, 'qcow2', 'vmdk', 'raw']):
-                for reverse in ((False, True) if not light else (False,)):
+            for expected in ([None] if dbg else expecteds if not light else [None, 'qcow2', 'vmdk', 'raw']):
+                for reverse in ((False, True) if not light and not dbg else (False,)):
                     for fl in fault_list:
                         if reverse and expected not in ALL and not thorough:
                             continue       # order is unobservable without an expected inspector
@@ -397,7 +443,7 @@ def _job(job):
                                 'faults': [list(f) for f in (fl or ())],
                                 'clauses': [(c, d) for c, d in bad[:4]]})
             # allowed_formats: inspectors outside it are never constructed / fed
-            if pi % 4 == 0 and not light:
+            if pi % 4 == 0 and not light and not dbg:
                 for allowed, expected in ((['raw', 'qcow2', 'vmdk'], 'vhd'),
                                           (['raw', 'qcow2', 'vmdk'], 'vmdk'),
                                           (['vhdx'], None)):
